@@ -13,7 +13,7 @@ import z3
 from .types import *
 from .values import *
 from .interp import (Engine, Env, Closure, ClassV, ModuleV, Builtin, ExcClass, LoopSpec, PyExc, PathEnd, EngineError,
-                     _Return, Ob, assigned_names)
+                     _Return, _Continue, _Break, Ob, assigned_names)
 from . import builtins as B
 
 REPO = os.environ.get('VERIF_REPO', '/repo')
@@ -170,6 +170,21 @@ def _norm(src):
     return ' '.join(src.split())
 
 
+def _module_defines(menv, name):
+    """is `name` a module-level name of the file under verification (a def, class, import or assignment)?"""
+    tree = getattr(menv, 'tree', None)
+    if tree is None:
+        return False
+    for st in tree.body:
+        if isinstance(st, (ast.FunctionDef, ast.ClassDef)) and st.name == name:
+            return True
+        if isinstance(st, (ast.Import, ast.ImportFrom)) and any((a.asname or a.name.split('.')[0]) == name for a in st.names):
+            return True
+        if isinstance(st, ast.Assign) and any(isinstance(t, ast.Name) and t.id == name for t in st.targets):
+            return True
+    return False
+
+
 def select_region(body, region):
     """contiguous top-level statements of the function body, located by the source text of the first statement
     (and optionally of the first statement after the region) -- never by line number."""
@@ -274,7 +289,11 @@ class Result:
                                   may_raise_without_condition=sorted(getattr(self.contract, 'allow_exc', []) or []),
                                   loop_invariants={k: len(v.inv) for k, v in (getattr(self.contract, 'loops', {}) or {}).items()},
                                   callees='through their contracts where one exists (same file), otherwise inlined',
-                                  recursive_through_own_contract=bool(getattr(self.contract, 'recursive', False))))
+                                  recursive_through_own_contract=bool(getattr(self.contract, 'recursive', False)),
+                                  # expressions taken as arbitrary values (their elements are not evaluated) and names of the
+                                  # module / builtins the contract replaces by an assumed contract
+                                  opaque_expressions=sorted(getattr(self, 'opaque', []) or []),
+                                  replaced_names=sorted(getattr(self, 'replaced', []) or [])))
 
 
 def build_engine(contract, all_contracts, timeout_ms=10000, mutate=None):
@@ -357,6 +376,9 @@ def verify(contract, all_contracts=(), timeout_ms=10000, mutate=None, negate_pos
             eng.inputs.update(cx.extra_inputs)
             spec_globals = Env(menv, dict(contract.spec_env))
             spec_globals.vars.update(cx.spec_env)
+            res.opaque = list(eng.opaque_exprs)
+            res.replaced = [k for k, v in cx.spec_env.items() if isinstance(v, (Builtin, Obj)) and getattr(v, 'name', k) is not None
+                            and (_module_defines(menv, k) or k in ('sorted', 'set', 'len', 'sum', 'min', 'max', 'list', 'dict', 'tuple'))]
             if isinstance(menv, LazyModuleEnv):
                 menv.overrides = dict(spec_globals.vars)
             for sn, ssrc in contract.spec_defs.items():
@@ -390,11 +412,19 @@ def verify(contract, all_contracts=(), timeout_ms=10000, mutate=None, negate_pos
             if gen:
                 env.vars['__yielded__'] = Box(contract.result_ty) if contract.result_ty else Box(None, kind='list')
             try:
+                env.vars['region_exit'] = 'end'
                 try:
                     eng.exec_block(body, env)
                     result = None
                 except _Return as r:
                     result = r.value
+                    env.vars['region_exit'] = 'return'
+                except (_Continue, _Break) as lc:
+                    # a region taken from a loop body may leave through continue / break: postconditions see which
+                    if not contract.region:
+                        raise EngineError('continue / break outside a loop')
+                    result = None
+                    env.vars['region_exit'] = 'continue' if isinstance(lc, _Continue) else 'break'
                 if gen:
                     result = env.vars['__yielded__']
             except PyExc as ex:
